@@ -2,7 +2,7 @@
     PROBLEM: if the Jacobian met at every point has rows of the right length and no zero column, and tau > 0,
     then along every run
 
-      - the damping parameter mu stays > 0 (mu0 = tau * max diag(J^T J) > 0; an accepted step multiplies it by
+      - the damping parameter mu stays > 0 (mu0 = tau > 0; an accepted step multiplies it by
         max(1/3, 1 - (2 rho - 1)^3) >= 1/3, a rejected one by nu >= 2; nu stays > 0), and
       - the damped normal matrix J^T J + mu diag(J^T J) is symmetric POSITIVE DEFINITE:
           x^T (G + mu diag G) x = x^T G x + mu sum_i G_ii x_i^2 >= mu G_kk x_k^2 > 0   (G = J^T J is positive
@@ -193,16 +193,7 @@ Proof.
     destruct (lm_step_damping_positive _ _ _ _ _ _ H1 Hmu Hnu) as [M N]. exact (IH _ _ H M N).
 Qed.
 
-(** the start value: mu0 = tau * max diag(J^T J) > 0 *)
-Lemma vmax_ge_In l x : In x l -> x <= vmax RO l.
-Proof. intros Hx. unfold vmax. destruct (fold_fmax_ge l (nan_ RO)) as [_ H]. apply H. exact Hx. Qed.
-
-Lemma mdiag_head_In (G : matrix (T:=R)) p : nr G = p -> nc G = p -> (0 < p)%nat -> In (entry G 0 0) (mdiag RO G).
-Proof.
-  intros Hr Hc Hp. unfold mdiag. rewrite Hr, Hc, Nat.min_id.
-  change (entry G 0 0) with ((fun i => nth (i * p + i) (dat G) (zero RO)) 0%nat).
-  apply in_map. apply in_seq. lia.
-Qed.
+(** the start value: mu0 = tau > 0 (the repaired code: the damping is relative to diag(J^T J) already) *)
 
 (** ** the run *)
 Section Run.
@@ -237,10 +228,7 @@ Section Run.
     unfold inv_state. cbn [lm_mu lm_nu lm_ps lm_jtj lm_jtr].
     pose proof (Hjac ps J (or_introl HJ)) as Hc.
     split; [|split; [apply two_pos|exists J, r; split; assumption]].
-    destruct (normal_eqs_entries _ _ _ _ _ Hn) as (Hr & Hcn & Hp & _ & _).
-    cbn [mul RO]. apply Rmult_lt_0_compat; [exact Htau|].
-    eapply Rlt_le_trans; [|apply vmax_ge_In; exact (mdiag_head_In jtj (length ps) Hr Hcn Hp)].
-    apply (gram_diag_positive _ _ _ _ _ Hn Hc). exact Hp.
+    exact Htau.
   Qed.
 
   Lemma inv_state_step st st' :
